@@ -201,7 +201,7 @@ pub fn run(cfg: &Cfg, rep: &mut Rep) {
     let mut i = 0usize;
     for &t in lat.iter() {
         i += 1;
-        if i % n != sh {
+        if i % n != sh || cfg.fuzz {
             continue;
         }
         for sa in SCALES {
@@ -222,6 +222,7 @@ pub fn run(cfg: &Cfg, rep: &mut Rep) {
     let lats: Vec<Vec<i128>> = SCALES.iter().map(|s| gen::reading_lattice(*s, &w.leap)).collect();
     let nrand = cfg.budget(6_000_000);
     for k in 0..nrand {
+        let k = cfg.k(k, &mut r);
         let (ia, ib) = (r.below(9) as usize, r.below(9) as usize);
         let (sa, sb) = (SCALES[ia], SCALES[ib]);
         let (ca, cb) = match k % 8 {
